@@ -256,6 +256,20 @@ def mutate_value(r, v):
     return ("d", d)
 
 
+def mutate_enum(r, t, v):
+    """an enumeration member holding a value that is no literal of the type (the reader must reject it)"""
+    d = list(v[1])
+    for i, (mid, x) in enumerate(d):
+        mt = [m[2] for m in t[2] if m[0] == mid]
+        if mt and mt[0][0] == "E" and x[0] == "d" and x[1]:
+            lo, hi = RANGE[mt[0][1]]
+            cand = [c for c in [7, 4, 11, hi - 1, lo + 2] if c not in mt[0][2] and lo <= c <= hi]
+            if cand:
+                d[i] = (mid, ("d", [(0, ("p", mt[0][1], r.choice(cand)))]))
+                return ("d", d)
+    return None
+
+
 def has_nested_nonfinal(t, top=True):
     k = t[0]
     if k in ("Q", "A"):
@@ -353,8 +367,9 @@ def gen(r, tier):
         if risky(ver, t, v):
             continue
         q = r.random()
-        if q < 0.04 and t[0] == "S":
-            cases.append(("rt", ver, end, t, mutate_value(r, v)))
+        if q < 0.05 and t[0] == "S":
+            mv = mutate_enum(r, t, v) if r.random() < 0.5 else None
+            cases.append(("rt", ver, end, t, mv or mutate_value(r, v)))
         elif q < 0.14 and not has_nested_nonfinal(t):
             cases.append(("rtt", r.choice([1, 2, 3, 4, 5, 8, 13]), ver, end, t, v))
         else:
